@@ -87,7 +87,7 @@ PROPS["C06"] = dict(
     labels=["C06.", "C07.engine.", "C10.engine.ok_replaces_rules", "C07.tags_with_set.", "C02.regex.make.function_of_inputs", "C02.regex.compile.function_of_inputs", "C01.index.",
             "C08.wire.roundtrip_fields", "C08.wire.ser_fields", "C08.wire.de_fields", "C05.fusion.", "C13.engine.", "C13.store.", "C08.to_wire.", "C08.from_wire."] + MASK,
     kani=[],
-    witness=["c06_cache.rs", "c07_tags.rs", "c05_equiv.rs", "c08_roundtrip.rs", "c18_model.rs"],
+    witness=["c06_cache.rs", "c07_tags.rs", "c05_equiv.rs", "c08_roundtrip.rs", "c18_model.rs", "c06_model.rs"],
     trusted=["NetworkFilterList::add_filter appends to the rules held (C01 units)", "regex cache (unit c02_regex, two R7 lifts of the arms of `match self.map.entry(key)` in RegexManager::matches): the Entry API itself is outside the contracts - that `key` selects this rule's entry, VacantEntry::insert hands back the stored value, cleanup() only ever sets a held regex to None; whether a pattern text compiles and whether a compiled regex matches are functions of the text and flags (uninterpreted); usage counters do not overflow",
              "the cache invariant (a held regex was compiled from the filter that owns the key = its address) is a precondition of the arms and re-established by them; it survives the life of a Blocker because the cache is emptied whenever filters are freed and reallocated: proved for Blocker::optimize and tags_with_set (unit c04_partition, R6 lift of `self.borrow_regex_manager().clear()` to a call on the owned cell), Engine::deserialize installs a new Blocker with a new manager; that nothing else frees a queried filter is not mechanised"],
     assumptions=[],
